@@ -208,6 +208,8 @@ def check_transactional(ck: Check):
 def run(ck: Check):
     ck.trusted += [
         "Coq 8.16.1 kernel; vm_compute for the non-vacuity Example, the refutation witness and trace replay",
+        "the transactional producer is not in Producer.v: it runs on C07's driver (harness/impl/c07_impl.py, simulated "
+        "transaction coordinator) and is judged by monitors on the leaders' arrival records only",
         "translator/py2gallina.py for increment_sequence_number (validated per run against the real method)",
         "the simulated cluster (harness/simkit): partition leader's idempotence rule written from Kafka's "
         "ProducerStateManager semantics; it is the oracle for what a broker would do",
